@@ -15,7 +15,14 @@ makes (`mkdir`, `open(O_CREAT|O_TRUNC)`, `chmod`, `lstat`/`stat`, `unlink`, `sym
   the last component is followed or not depending on the system call.
 * Every system call is atomic: an error leaves the file system unchanged.
 * The process is assumed to run with `CAP_DAC_OVERRIDE` (root, as in the jail of the correspondence
-  check), so permission bits never make a call fail; `umask` is 022.
+  check), so permission bits never make a call fail; the `umask` is part of the state (`Fs.umask`, 022 by default) and
+  shows in the modes of the directories `create_dir_all` makes and of a file between `File::create` and `set_permissions`.
+* `NAME_MAX`: a name longer than 255 bytes cannot be created — `mkdir`, `open(O_CREAT)`, `symlink` answer
+  `ENAMETOOLONG` when the component they would create is that long. (The kernel answers `ENAMETOOLONG` as soon as a
+  walk LOOKS UP such a name; no such name ever exists, so the model's walk answers `ENOENT` / "vacant" at that point: an
+  error for every call either way, and the `NotFound` recursion of `create_dir_all` ends in the same state — it creates
+  the ancestors that come before the long component and then fails; `createDirAllLeft` is what it leaves behind.
+  `PATH_MAX` (4096 bytes for a whole path text) is NOT modelled: paths are assumed shorter.)
 
 Everything is structurally recursive, so closed instances evaluate in the kernel (`decide +kernel`).
 -/
@@ -35,16 +42,28 @@ def Node.isDir : Node → Bool | .dir _ => true | _ => false
 def Node.isSymlink : Node → Bool | .symlink _ => true | _ => false
 
 inductive Errno where
-  | ENOENT | EEXIST | ENOTDIR | EISDIR | ELOOP
+  | ENOENT | EEXIST | ENOTDIR | EISDIR | ELOOP | ENAMETOOLONG
   deriving DecidableEq, Repr
 
 def Errno.name : Errno → String
   | .ENOENT => "ENOENT" | .EEXIST => "EEXIST" | .ENOTDIR => "ENOTDIR" | .EISDIR => "EISDIR" | .ELOOP => "ELOOP"
+  | .ENAMETOOLONG => "ENAMETOOLONG"
+
+/-- `NAME_MAX` of Linux file systems (ext4, xfs, btrfs, tmpfs): bytes in one component -/
+def nameMax : Nat := 255
+
+/-- the component a creating call would add at the physical location `q` is longer than `NAME_MAX` -/
+def nameTooLong (q : Path) : Bool :=
+  match q.getLast? with
+  | some c => decide (nameMax < c.length)
+  | none => false
 
 structure Fs where
   nodes : List (Path × Node)
   /-- every path created, modified or removed so far (most recent first) -/
   log : List Path
+  /-- the calling process' file mode creation mask (`umask(2)`; 022 in the usual jail); never changed by a call -/
+  umask : Nat := 0o022
   deriving DecidableEq, Repr
 
 def lookup (p : Path) : List (Path × Node) → Option Node
@@ -56,8 +75,11 @@ def erase (p : Path) : List (Path × Node) → List (Path × Node)
   | (q, n) :: r => if q = p then erase p r else (q, n) :: erase p r
 
 def Fs.get (fs : Fs) (p : Path) : Option Node := lookup p fs.nodes
-def Fs.set (fs : Fs) (p : Path) (n : Node) : Fs := ⟨(p, n) :: erase p fs.nodes, p :: fs.log⟩
-def Fs.del (fs : Fs) (p : Path) : Fs := ⟨erase p fs.nodes, p :: fs.log⟩
+def Fs.set (fs : Fs) (p : Path) (n : Node) : Fs := ⟨(p, n) :: erase p fs.nodes, p :: fs.log, fs.umask⟩
+def Fs.del (fs : Fs) (p : Path) : Fs := ⟨erase p fs.nodes, p :: fs.log, fs.umask⟩
+
+/-- `mode & ~umask` on the 9 permission bits (the mask never clears setuid / setgid / sticky; `mkdir` and `open` pass none) -/
+def Fs.masked (fs : Fs) (mode : Nat) : Nat := mode - (mode &&& (fs.umask &&& 0o777))
 
 /-! ## path text -/
 
@@ -116,12 +138,12 @@ def resolve (fs : Fs) (fl : Bool) (cs : List Name) : Except Errno Path := walk f
 
 /-! ## system calls (as used by `std::fs`) -/
 
-/-- mode of a directory created by `mkdir(path, 0o777)` under umask 022; the set-group-ID bit of the
-parent is inherited (Linux) -/
+/-- mode of a directory created by `mkdir(path, 0o777)`: `0o777 & ~umask` (0o755 under umask 022); the set-group-ID bit
+of the parent is inherited (Linux) -/
 def newDirMode (fs : Fs) (q : Path) : Nat :=
   match fs.get q.dropLast with
-  | some (.dir m) => 0o755 ||| (m &&& 0o2000)
-  | _ => 0o755
+  | some (.dir m) => fs.masked 0o777 ||| (m &&& 0o2000)
+  | _ => fs.masked 0o777
 
 /-- `mkdir(2)` -/
 def mkdir (fs : Fs) (cs : List Name) : Except Errno Fs :=
@@ -130,7 +152,7 @@ def mkdir (fs : Fs) (cs : List Name) : Except Errno Fs :=
   | .ok q =>
     match fs.get q with
     | some _ => .error .EEXIST
-    | none => .ok (fs.set q (.dir (newDirMode fs q)))
+    | none => if nameTooLong q then .error .ENAMETOOLONG else .ok (fs.set q (.dir (newDirMode fs q)))
 
 /-- `Path::is_dir` = `stat(2)` succeeded and found a directory -/
 def isDir (fs : Fs) (cs : List Name) : Bool :=
@@ -157,14 +179,29 @@ def createDirAllRev (fs : Fs) : List Name → Except Errno Fs
 
 def createDirAll (fs : Fs) (cs : List Name) : Except Errno Fs := createDirAllRev fs cs.reverse
 
+/-- what a FAILED `create_dir_all` leaves behind: the ancestors it created before the `mkdir` that failed (the first
+`mkdir` answered `NotFound`, the ancestors were created - or creating them failed, leaving what THAT call created -, and
+the second `mkdir` failed, e.g. with `ENAMETOOLONG`). Only consulted when `createDirAllRev` is an error. -/
+def createDirAllLeftRev (fs : Fs) : List Name → Fs
+  | [] => fs
+  | c :: rp =>
+    match mkdir fs (c :: rp).reverse with
+    | .error .ENOENT =>
+      match createDirAllRev fs rp with
+      | .error _ => createDirAllLeftRev fs rp
+      | .ok fs1 => fs1
+    | _ => fs
+
+def createDirAllLeft (fs : Fs) (cs : List Name) : Fs := createDirAllLeftRev fs cs.reverse
+
 /-- `File::create` (= `open(O_WRONLY|O_CREAT|O_TRUNC, 0o666)`, follows a final symbolic link) followed
-by `write_all(content)` -/
+by `write_all(content)`; a new file gets `0o666 & ~umask` -/
 def fileCreate (fs : Fs) (cs : List Name) (content : Bytes) : Except Errno Fs :=
   match resolve fs true cs with
   | .error e => .error e
   | .ok q =>
     match fs.get q with
-    | none => .ok (fs.set q (.file content 0o644))
+    | none => if nameTooLong q then .error .ENAMETOOLONG else .ok (fs.set q (.file content (fs.masked 0o666)))
     | some (.file _ m) => .ok (fs.set q (.file content m))
     | some (.dir _) => .error .EISDIR
     | some (.symlink _) => .error .ELOOP
@@ -204,7 +241,7 @@ def symlink (fs : Fs) (cs : List Name) (target : Bytes) : Except Errno Fs :=
   | .ok q =>
     match fs.get q with
     | some _ => .error .EEXIST
-    | none => .ok (fs.set q (.symlink target))
+    | none => if nameTooLong q then .error .ENAMETOOLONG else .ok (fs.set q (.symlink target))
 
 /-! ## `std::path` as used by `extract` -/
 
@@ -290,6 +327,12 @@ def andThen (fs : Fs) (r : Except Errno Fs) (k : Fs → Res) : Res :=
 
 def done (fs : Fs) : Res := ⟨.ok (), fs⟩
 
+/-- `fs::create_dir_all(p)?`: unlike a single system call a failing `create_dir_all` is not atomic -/
+def andThenDirs (fs : Fs) (p : List Name) (k : Fs → Res) : Res :=
+  match createDirAll fs p with
+  | .ok fs' => k fs'
+  | .error e => ⟨.err e.name, createDirAllLeft fs p⟩
+
 /-- body of the `for file in self.files()?` loop -/
 def extractItem (dest : List Name) (fs : Fs) (it : Item) : Res :=
   match extractionPath dest it.path with
@@ -298,7 +341,7 @@ def extractItem (dest : List Name) (fs : Fs) (it : Item) : Res :=
     match it.kind with
     | .dir =>
       if refuseSymlinks fs dest (relOf it.path) true then ⟨.err "symlink", fs⟩ else
-      andThen fs (createDirAll fs p) fun fs1 =>
+      andThenDirs fs p fun fs1 =>
       andThen fs1 (setPerm fs1 p it.perm) done
     | .regular =>
       if refuseSymlinks fs dest (relOf it.path) false then ⟨.err "symlink", fs⟩ else
@@ -326,7 +369,7 @@ def extractDirs (dest : List Name) : Fs → List Bytes → Res
   | fs, d :: r =>
     match extractionPath dest d with
     | none => ⟨.err "dotdot", fs⟩
-    | some p => andThen fs (createDirAll fs p) fun fs' => extractDirs dest fs' r
+    | some p => andThenDirs fs p fun fs' => extractDirs dest fs' r
 
 /-- `Package::extract(dest)` -/
 def extract (inp : Input) (dest : List Name) (fs : Fs) : Res :=
